@@ -1037,6 +1037,8 @@ class Exec:
             return False
         if _is_generator(callee.node) or _is_property(callee.node):
             return False
+        if any(isinstance(n, ast.While) for n in walk_no_nested(callee.node)):
+            return False  # outside the executor's fragment: the call stays opaque
         return True
 
     def _special_call(self, call, fterm, recv, args, kw, st, fr):
@@ -1253,6 +1255,16 @@ class Exec:
             conds = tuple(self.ev(c, st, fr) for c in g.ifs)
             st.env = saved
             return ("comp", elt, it, conds)
+        if isinstance(e, ast.DictComp) and len(e.generators) == 1:
+            g = e.generators[0]
+            it = self.ev(g.iter, st, fr)
+            saved = dict(st.env)
+            self._assign(g.target, ("elem", it), st, fr, e)
+            conds = tuple(self.ev(c, st, fr) for c in g.ifs)
+            kt = self.ev(e.key, st, fr)
+            vt = self.ev(e.value, st, fr)
+            st.env = saved
+            return ("dictcomp", kt, vt, it, conds)
         if isinstance(e, ast.JoinedStr):
             return ("fstring",) + tuple(self.ev(v.value, st, fr) for v in e.values if isinstance(v, ast.FormattedValue))
         if isinstance(e, ast.Lambda):
